@@ -48,6 +48,25 @@ def ctor_monthly(ku: str, fu: str, pu: str) -> bool:
     return _ok(x, [ku + EM, fu + EM, pu + EM]) and x.is_list_monthly()
 
 
+def ctor_argument_shapes(ku: str, fu: str, pu: str) -> bool:
+    """every accepted shape of the constructor's arguments: nutrients left at their integer default (expanded to zero series), one of them only, lists, arrays, numpy scalars"""
+    _setup()
+    um = [ku + EM, fu + EM, pu + EM]
+    k, f, p = [3.0, 4.0], [5.0, 6.0], [7.0, 8.0]
+    shapes = [Food(k, kcals_units=ku, fat_units=fu, protein_units=pu), Food(k, 0, 0, ku, fu, pu), Food(k, f, 0, ku, fu, pu), Food(k, 0, p, ku, fu, pu), Food(np.array(k), np.array(f), np.array(p), ku, fu, pu),
+              Food(np.array(k), kcals_units=ku, fat_units=fu, protein_units=pu), Food(np.array(k), np.array(f), 0, ku, fu, pu), Food(k, np.array(f), p, ku, fu, pu)]
+    for x in shapes:
+        if not (_ok(x, um) and x.is_list_monthly() and len(x.fat) == 2 and len(x.protein) == 2 and x.NMONTHS == 2):
+            return False
+    scal = [Food(3.0, kcals_units=ku, fat_units=fu, protein_units=pu), Food(3, 0, 0, ku, fu, pu), Food(np.float64(3.0), np.float64(1.0), 2, ku, fu, pu)]
+    for x in scal:
+        if not (_ok(x, [ku, fu, pu]) and not x.is_list_monthly()):
+            return False
+    # a quantity built with defaulted nutrients combines with the same quantity built from three series
+    a, b = Food(k, kcals_units=ku, fat_units=fu, protein_units=pu), Food(k, [0.0, 0.0], [0.0, 0.0], ku, fu, pu)
+    return _ok(a + b, um) and _ok(a - b, um) and _ok(Food.min_elementwise(a, b), um) and bool(a == b)
+
+
 def add_sub_scalar(ku: str, fu: str, pu: str) -> bool:
     _setup()
     x, y = _scalar(ku, fu, pu), _scalar(ku, fu, pu, 10.0)
@@ -192,7 +211,7 @@ def unit_helpers(ku: str, fu: str, pu: str) -> bool:
     return ok1 and ok2 and ok3 and _ok(d, [pu, ku, fu]) and d.get_units() == [pu, ku, fu]
 
 
-PROPS = ["ctor_scalar", "ctor_monthly", "add_sub_scalar", "add_sub_monthly", "mul_div_by_number", "ratio_times_quantity_scalar", "ratio_times_quantity_monthly", "quantity_times_quantity_refused",
+PROPS = ["ctor_scalar", "ctor_monthly", "ctor_argument_shapes", "add_sub_scalar", "add_sub_monthly", "mul_div_by_number", "ratio_times_quantity_scalar", "ratio_times_quantity_monthly", "quantity_times_quantity_refused",
          "divide_same_units_gives_ratio", "month_extraction", "indexing", "sums_and_extrema", "elementwise_and_cleanup", "unit_helpers"]
 TWO = ["different_units_refused", "different_units_refused_monthly"]
 NEEDS_NON_RATIO = ["ratio_times_quantity_scalar", "ratio_times_quantity_monthly", "quantity_times_quantity_refused"]
